@@ -1,5 +1,6 @@
 import Poulpy.Model.Layout
 import Poulpy.Lemmas.Bytes
+import Poulpy.Lemmas.Kernels
 /-!
 # C17 — safe API calls never access memory outside the buffers they were given  (proof, partial)
 
@@ -369,5 +370,392 @@ theorem compact_in_bounds (n nBlocks k c : Nat) (hk : k < nBlocks) (hc : c < n) 
   have e3 : 4 * n * nBlocks = 4 * (n * nBlocks) := Nat.mul_assoc _ _ _
   rw [e1, e2, e3]; omega
 example : traceClobbers (compactTrace 4 3) = false ∧ (compactTrace 4 3).length = 24 := by decide
+
+/-! ## raw-pointer kernels: footprints in bounds
+
+`Kern.*` (Model/Kernels.lean) lists, for given arguments, every element range a kernel reads or writes — transcribed
+from the AVX pointer arithmetic.  `InBounds len foot`: every range ends inside its buffer.  The hypotheses are the
+kernel's entry assertions plus the layout invariant of the buffers the HAL wrapper passes (buffer lengths as
+`n·cols·size`), including the size of the temporary the wrapper takes from scratch. -/
+
+open Kern
+
+/-- buffer lengths of a call: 0 = output, 1 = first input, 2 = second input, 3 = temporary -/
+def lens4 (l0 l1 l2 l3 : Nat) : Nat → Nat
+  | 0 => l0
+  | 1 => l1
+  | 2 => l2
+  | _ => l3
+
+theorem pmatOff_le (nrows ncols row col : Nat) (hr : row < nrows) (hc : col < ncols) :
+    pmatOff nrows ncols row col + 8 ≤ nrows * ncols * 8 := by
+  unfold pmatOff
+  split
+  · rename_i h
+    obtain ⟨h1, _⟩ := h
+    have e : col + 1 = ncols := by omega
+    have k : col * nrows + (row + 1) ≤ ncols * nrows := by
+      have := blk_fit (blk := col) (q := ncols) (Q := nrows) (x := row + 1) hc (by omega)
+      exact this
+    calc col * nrows * 8 + row * 8 + 8 = (col * nrows + (row + 1)) * 8 := by omega
+      _ ≤ ncols * nrows * 8 := Nat.mul_le_mul_right _ k
+      _ = nrows * ncols * 8 := by rw [Nat.mul_comm ncols nrows]
+  · rename_i h
+    have h2 : 2 * (col / 2 + 1) ≤ ncols := by
+      by_cases hp : col % 2 = 1
+      · omega
+      · have : ¬ (col = ncols - 1 ∧ ncols % 2 = 1) := h
+        by_cases he : col = ncols - 1
+        · have : ncols % 2 ≠ 1 := fun hh => this ⟨he, hh⟩
+          omega
+        · omega
+    have k1 : col / 2 * (nrows * 16) + (row * 16 + 16) ≤ (col / 2 + 1) * (nrows * 16) := by
+      have := blk_fit (blk := col / 2) (q := col / 2 + 1) (Q := nrows * 16) (x := row * 16 + 16) (by omega) (by omega)
+      exact this
+    have k2 : (col / 2 + 1) * (nrows * 16) ≤ nrows * ncols * 8 := by
+      calc (col / 2 + 1) * (nrows * 16) = (2 * (col / 2 + 1)) * (nrows * 8) := by
+            rw [Nat.mul_comm 2 (col / 2 + 1), Nat.mul_assoc, show 2 * (nrows * 8) = nrows * 16 by omega]
+        _ ≤ ncols * (nrows * 8) := Nat.mul_le_mul_right _ h2
+        _ = nrows * ncols * 8 := by rw [← Nat.mul_assoc, Nat.mul_comm ncols nrows]
+    have : col % 2 * 8 + 8 ≤ 16 := by omega
+    omega
+
+/-- **`vmp_prepare_core`** (FFT64, ref and AVX): under its entry assertions (`n = 2m ≥ 8` a power of two, i.e. `4 ∣ m`;
+`mat.len() = pmat.len() = n·nrows·ncols`; `tmp.len() = n`) every read of `mat`, every access of `tmp` and every
+4-lane store into the block-interleaved `pmat` is in bounds — including the odd last column -/
+theorem vmp_prepare_in_bounds (m nrows ncols : Nat) (hm : m % 4 = 0) :
+    InBounds (lens4 (2 * m * nrows * ncols) (2 * m * nrows * ncols) 0 (2 * m)) (vmpPrepare m nrows ncols) := by
+  unfold vmpPrepare
+  refine inb_flatMap (fun row hrow => inb_flatMap (fun col hcol => ?_))
+  have hr : row < nrows := List.mem_range.mp hrow
+  have hc : col < ncols := List.mem_range.mp hcol
+  refine inb_append (inb_cons ?_ (inb_cons ?_ (inb_nil _))) (inb_flatMap (fun blk hblk => ?_))
+  · simp only [rd, lens4]
+    have k : row * ncols + (col + 1) ≤ nrows * ncols := blk_fit hr (by omega)
+    calc 2 * m * (row * ncols + col) + 2 * m = 2 * m * (row * ncols + (col + 1)) := by rw [Nat.mul_add (2 * m) _ (col + 1), Nat.mul_add (2*m) _ col, Nat.mul_add (2*m) col 1]; omega
+      _ ≤ 2 * m * (nrows * ncols) := Nat.mul_le_mul_left _ k
+      _ = 2 * m * nrows * ncols := by rw [Nat.mul_assoc (2 * m) nrows ncols]
+  · simp only [wt, lens4]; omega
+  · have hb : blk < m / 4 := List.mem_range.mp hblk
+    refine extract1blk_inb m 1 blk _ _ ?_ ?_
+    · simp only [lens4]; omega
+    · simp only [lens4]
+      have k := blk_fit (blk := blk) (q := m / 4) (Q := nrows * ncols * 8) (x := pmatOff nrows ncols row col + 8) hb
+        (pmatOff_le nrows ncols row col hr hc)
+      have e : m / 4 * (nrows * ncols * 8) = 2 * m * nrows * ncols := by
+        have hm4 : m = 4 * (m / 4) := by omega
+        calc m / 4 * (nrows * ncols * 8) = (m / 4 * 8) * (nrows * ncols) := by
+              rw [Nat.mul_comm (nrows * ncols) 8, ← Nat.mul_assoc]
+          _ = 2 * m * (nrows * ncols) := by rw [show m / 4 * 8 = 2 * m by omega]
+          _ = 2 * m * nrows * ncols := by rw [Nat.mul_assoc (2 * m) nrows ncols]
+      omega
+example : InBounds (lens4 (16 * 2 * 3) (16 * 2 * 3) 0 16) (vmpPrepare 8 2 3) ∧ (vmpPrepare 8 2 3).length = 60 := by decide
+
+/-- **`vmp_apply_dft_to_dft_core`** (FFT64 ref and AVX; both `limb_offset` parities, odd last column, `res` shorter or
+longer than the product, `a` shorter than the matrix).  Caller's contract: entry assertions (`4 ∣ m`, `pmat.len() =
+n·nrows·ncols`, `res.len() = n·resSize`, `a.len() = n·aSize`) and the temporary taken by the HAL wrapper:
+`tmp.len() ≥ 16 + 8·min(nrows, aSize)` (`vmp_apply_dft_to_dft_tmp_bytes`).  Then every access — the `2·row_max` 4-lane
+gathers from `a`, the 16- and 8-wide loads of the interleaved matrix, the 16 doubles `mat2cols` stores, the stores into
+`res` at `blk·4 + t·m` — is in bounds. -/
+theorem vmp_apply_in_bounds (m resSize aSize nrows ncols lo tmpLen : Nat) (hm : m % 4 = 0)
+    (htmp : 16 + 8 * min nrows aSize ≤ tmpLen) :
+    InBounds (lens4 (2 * m * resSize) (2 * m * aSize) (2 * m * nrows * ncols) tmpLen) (vmpApply m resSize aSize nrows ncols lo) := by
+  unfold vmpApply
+  simp only []
+  split
+  · exact inb_cons (by simp only [wt, lens4]; omega) (inb_nil _)
+  rename_i hlo
+  have hlo' : lo < min ncols (resSize + lo) := by omega
+  have hcm1 : min ncols (resSize + lo) ≤ ncols := Nat.min_le_left _ _
+  have hcm2 : min ncols (resSize + lo) ≤ resSize + lo := Nat.min_le_right _ _
+  have hrm1 : min nrows aSize ≤ nrows := Nat.min_le_left _ _
+  have hrm2 : min nrows aSize ≤ aSize := Nat.min_le_right _ _
+  have hres1 : 1 ≤ resSize := by omega
+  generalize hC : min ncols (resSize + lo) = colMax at *
+  generalize hR : min nrows aSize = rowMax at *
+  refine inb_append (inb_flatMap (fun blk hblk => ?_)) (inb_cons ?_ (inb_nil _))
+  · have hb : blk < m / 4 := List.mem_range.mp hblk
+    have hsave2 : ∀ c, c ∈ pairCols lo colMax ∨ c ∈ pairCols (lo + 1) colMax →
+        InBounds (lens4 (2 * m * resSize) (2 * m * aSize) (2 * m * nrows * ncols) tmpLen)
+          (mat2cols rowMax (3, 0) (3, 16) (2, blk * (8 * nrows * ncols) + c * (8 * nrows)) ++ save2blk m blk (0, (c - lo) * (2 * m)) (3, 0)) := by
+      intro c hc
+      have hcc : lo ≤ c ∧ c + 2 ≤ colMax := by
+        rcases hc with h | h
+        · exact ⟨(mem_pairCols h).1, (mem_pairCols h).2.1⟩
+        · exact ⟨by have := (mem_pairCols h).1; omega, (mem_pairCols h).2.1⟩
+      refine inb_append (mat2cols_inb _ _ _ _ (by simp only [lens4]; omega) (by simp only [lens4]; omega) ?_)
+        (save2blk_inb _ _ _ _ ?_ (by simp only [lens4]; omega))
+      · simp only [lens4]
+        have k1 := col_ext (c := c) (k := 2) (ncols := ncols) (nrows := nrows) (y := 16 * rowMax) (by omega) (by omega)
+        have := pm_fit (m := m) (blk := blk) (nrows := nrows) (ncols := ncols) hm hb k1
+        omega
+      · simp only [lens4]
+        have k1 := limb_fit (j := c - lo) (k := 2) (n := 2 * m) (S := resSize) (by omega)
+        omega
+    refine inb_append (inb_append ?_ ?_) ?_
+    · refine extract1blk_inb' m rowMax blk _ _ ?_ (by simp only [lens4]; omega)
+      by_cases h0 : rowMax = 0
+      · exact Or.inl h0
+      · right
+        simp only [lens4]
+        have k := rows_fit (rowMax := rowMax) (m := m) (aSize := aSize) (by omega) hrm2
+        have e : 4 * (m / 4) = m := by omega
+        rw [e]; omega
+    · split
+      · exact inb_flatMap (fun c hc => hsave2 c (Or.inl hc))
+      · rename_i hodd
+        refine inb_append (inb_append (mat2cols2nd_inb _ _ _ _ (by simp only [lens4]; omega) (by simp only [lens4]; omega) ?_)
+          (save1blk_inb _ _ _ _ ?_ (by simp only [lens4]; omega))) (inb_flatMap (fun c hc => hsave2 c (Or.inr hc)))
+        · simp only [lens4]
+          have k1 := col_ext (c := lo - 1) (k := 2) (ncols := ncols) (nrows := nrows) (y := 16 * rowMax) (by omega) (by omega)
+          have := pm_fit (m := m) (blk := blk) (nrows := nrows) (ncols := ncols) hm hb k1
+          omega
+        · simp only [lens4]
+          have k1 := limb_fit (j := 0) (k := 1) (n := 2 * m) (S := resSize) (by omega)
+          omega
+    · refine inb_ite (fun hlast => ?_) (fun _ => inb_nil _)
+      refine inb_append (inb_ite (fun he => ?_) (fun hne => ?_)) (save1blk_inb _ _ _ _ ?_ (by simp only [lens4]; omega))
+      · refine mat1col_inb _ _ _ _ (by simp only [lens4]; omega) (by simp only [lens4]; omega) ?_
+        simp only [lens4]
+        have k1 := col_ext (c := colMax - 1) (k := 1) (ncols := ncols) (nrows := nrows) (y := 8 * rowMax) (by omega) (by omega)
+        have := pm_fit (m := m) (blk := blk) (nrows := nrows) (ncols := ncols) hm hb k1
+        omega
+      · refine mat2cols_inb _ _ _ _ (by simp only [lens4]; omega) (by simp only [lens4]; omega) ?_
+        simp only [lens4]
+        have k1 := col_ext (c := colMax - 1) (k := 2) (ncols := ncols) (nrows := nrows) (y := 16 * rowMax) (by omega) (by omega)
+        have := pm_fit (m := m) (blk := blk) (nrows := nrows) (ncols := ncols) hm hb k1
+        omega
+      · simp only [lens4]
+        have k1 := limb_fit (j := colMax - 1 - lo) (k := 1) (n := 2 * m) (S := resSize) (by omega)
+        omega
+  · simp only [wt, lens4]
+    have k1 := limb_fit (j := colMax - lo) (k := 0) (n := 2 * m) (S := resSize) (by omega)
+    omega
+example : InBounds (lens4 (16 * 3) (16 * 4) (16 * 4 * 5) (16 + 8 * 4)) (vmpApply 8 3 4 4 5 1) ∧
+    InBounds (lens4 (16 * 3) (16 * 2) (16 * 4 * 5) (16 + 8 * 2)) (vmpApply 8 3 2 4 5 2) := by decide
+
+/-- the temporary's size is necessary: with one `f64` less than `16 + 8·row_max` the AVX gather writes past it -/
+theorem vmp_apply_tmp_too_small_counterexample :
+    ¬ InBounds (lens4 (16 * 3) (16 * 4) (16 * 4 * 5) (16 + 8 * 4 - 1)) (vmpApply 8 3 4 4 5 0) := by decide
+
+/-! ### FFT64 convolution -/
+
+/-- **`convolution_prepare` / `convolution_prepare_self`**, one column `i < cols` of the prepared operand, stated for
+an arbitrary number `copyRows` of limbs gathered out of the temporary.  Obligations of the HAL wrapper: the temporary is
+a one-column `VecZnxDft` of `tmpSize` limbs (`take_vec_znx_dft(module, 1, tmpSize)`), and
+**`copyRows ≤ tmpSize`** ("temporary size ≥ read set"), `copyRows ≤ resSize`, `min(resSize, aSize) ≤ tmpSize`.
+The shipped code has `copyRows = tmpSize = min(res.size(), a.size())` (`cnv_prepare_in_bounds`). -/
+theorem cnv_prepare_col_in_bounds (m cols resSize aSize tmpSize i copyRows : Nat) (hm : m % 4 = 0) (hi : i < cols)
+    (hcopy : copyRows ≤ tmpSize) (hcr : copyRows ≤ resSize) (hmin : min resSize aSize ≤ tmpSize) :
+    InBounds (lens4 (2 * m * cols * resSize) 0 0 (2 * m * tmpSize)) (cnvPrepareCol m resSize aSize tmpSize 1 i copyRows) := by
+  unfold cnvPrepareCol
+  simp only []
+  have hmr : min resSize aSize ≤ resSize := Nat.min_le_left _ _
+  generalize hM : min resSize aSize = minSize at *
+  refine inb_append (inb_append (inb_map (fun j hj => ?_)) (inb_ite (fun h => inb_cons ?_ (inb_nil _)) (fun _ => inb_nil _)))
+    (inb_flatMap (fun blk hblk => ?_))
+  · have hj' : j < tmpSize := List.mem_range.mp hj
+    simp only [wt, lens4, Nat.mul_one]
+    have := at_fit (n := 2 * m) (j := j) (C := 1) (c := 0) (S := tmpSize) hj' (by omega)
+    simp only [Nat.mul_one, Nat.add_zero] at this; exact this
+  · simp only [wt, lens4, Nat.mul_one]
+    have := at_fit (n := 2 * m) (j := minSize - 1) (C := 1) (c := 0) (S := tmpSize) (by omega) (by omega)
+    simp only [Nat.mul_one, Nat.add_zero] at this; exact this
+  · have hb : blk < m / 4 := List.mem_range.mp hblk
+    have e8 : blk * resSize * 8 = blk * (resSize * 8) := Nat.mul_assoc _ _ _
+    refine inb_append (extract1blk_inb' m copyRows blk _ _ ?_ ?_) (inb_cons ?_ (inb_nil _))
+    · by_cases h0 : copyRows = 0
+      · exact Or.inl h0
+      · right
+        simp only [lens4]
+        have k := rows_fit (rowMax := copyRows) (m := m) (aSize := tmpSize) (by omega) hcopy
+        have e : 4 * (m / 4) = m := by omega
+        rw [e]; omega
+    · simp only [lens4]
+      have k := cnv_blk_fit (m := m) (col := i) (C := cols) (S := resSize) (blk := blk) (x := 8 * copyRows) hm hi hb (by omega)
+      omega
+    · simp only [wt, lens4]
+      have k := cnv_blk_fit (m := m) (col := i) (C := cols) (S := resSize) (blk := blk) (x := resSize * 8) hm hi hb (Nat.le_refl _)
+      have e9 : (blk + 1) * resSize * 8 = blk * (resSize * 8) + resSize * 8 := by
+        rw [Nat.mul_assoc, Nat.add_mul, Nat.one_mul]
+      omega
+example : InBounds (lens4 (16 * 2 * 3) 0 0 (16 * 2)) (cnvPrepareCol 8 3 2 2 1 1 2) := by decide
+
+/-- the shipped wrapper + kernel pair: `tmp` has `min(res.size(), a.size())` limbs and exactly that many are gathered -/
+theorem cnv_prepare_in_bounds (m cols resSize aSize i : Nat) (hm : m % 4 = 0) (hi : i < cols) :
+    InBounds (lens4 (2 * m * cols * resSize) 0 0 (2 * m * min resSize aSize))
+      (cnvPrepareCol m resSize aSize (min resSize aSize) 1 i (min resSize aSize)) :=
+  cnv_prepare_col_in_bounds m cols resSize aSize _ i _ hm hi (Nat.le_refl _) (Nat.min_le_left _ _) (Nat.le_refl _)
+example : (0 : Nat) < 2 ∧ (8 : Nat) % 4 = 0 := by decide
+
+/-- without "temporary size ≥ read set": gathering `res.size()` limbs out of a temporary of `min(res.size(), a.size())`
+limbs (the seeded change) reads past the temporary — the obligation `copyRows ≤ tmpSize` is exactly what fails -/
+theorem cnv_prepare_copy_res_size_counterexample :
+    ¬ InBounds (lens4 (16 * 1 * 3) 0 0 (16 * min 3 1)) (cnvPrepareCol 8 3 1 (min 3 1) 1 0 3) := by decide
+
+/-- **`convolution_apply_dft`** (and the `col_i = col_j` path of `convolution_pairwise_apply_dft`).  Contract: `4 ∣ m`;
+`a_size, b_size ≥ 1` (asserted by `reim4_convolution`); `res_col < res.cols()` (asserted by `at_mut`);
+`tmp.len() ≥ 8·min_size` (`convolution_apply_dft_tmp_bytes`); and `a_col < a.cols()`, `b_col < b.cols()` — asserted at entry since repair docs/fixes/24 (`cnvApplyChecked`;
+before it `&a_raw[a_col·n·a_size..]` only panicked for `a_col > a.cols()`). -/
+theorem cnv_apply_in_bounds (m resSize resCols resCol aSize aCols aCol bSize bCols bCol cnvOffset tmpLen : Nat) (hm : m % 4 = 0)
+    (ha1 : 1 ≤ aSize) (hb1 : 1 ≤ bSize) (hrc : resCol < resCols) (hac : aCol < aCols) (hbc : bCol < bCols)
+    (htmp : 8 * min resSize (aSize + bSize - 1) ≤ tmpLen) :
+    InBounds (lens4 (2 * m * resCols * resSize) (2 * m * aCols * aSize) (2 * m * bCols * bSize) tmpLen)
+      (cnvApply m resSize resCols resCol aSize aCol bSize bCol cnvOffset) := by
+  unfold cnvApply
+  simp only []
+  have hmr : min resSize (aSize + bSize - 1) ≤ resSize := Nat.min_le_left _ _
+  generalize hM : min resSize (aSize + bSize - 1) = minSize at *
+  refine inb_append (inb_flatMap (fun blk hblk => ?_)) (inb_map (fun j hj => ?_))
+  · have hb : blk < m / 4 := List.mem_range.mp hblk
+    refine inb_append (conv_inb _ _ _ _ _ _ _ ha1 (by simp only [lens4]; omega) ?_ ?_) (inb_flatMap (fun k hk => ?_))
+    · simp only [lens4]
+      have := cnv_blk_fit (m := m) (col := aCol) (C := aCols) (S := aSize) (blk := blk) (x := 8 * aSize) hm hac hb (by omega)
+      omega
+    · simp only [lens4]
+      have := cnv_blk_fit (m := m) (col := bCol) (C := bCols) (S := bSize) (blk := blk) (x := 8 * bSize) hm hbc hb (by omega)
+      omega
+    · have hk' : k < minSize := List.mem_range.mp hk
+      refine save1blk_inb _ _ _ _ ?_ (by simp only [lens4]; omega)
+      simp only [lens4]
+      have := at_fit (n := 2 * m) (j := k) (C := resCols) (c := resCol) (S := resSize) (by omega) hrc
+      omega
+  · have hj' := List.mem_range'_1.mp hj
+    simp only [wt, lens4]
+    exact at_fit (by omega) hrc
+example : InBounds (lens4 (16 * 2 * 3) (16 * 2 * 2) (16 * 1 * 3) (8 * 3)) (cnvApply 8 3 2 1 2 1 3 0 1) := by decide
+
+/-- what repair docs/fixes/24 bought (`cnvApply` = the entry point without its new column assertions): `a_col = a.cols()` (one past the last column) passes every check of the
+reference wrapper (`&a_raw[len..]` is an empty slice) and the AVX kernel then loads `8·a_size` doubles past the operand -/
+theorem cnvApplyOld_a_col_out_of_bounds :
+    ¬ InBounds (lens4 (16 * 1 * 1) (16 * 1 * 1) (16 * 1 * 1) 8) (cnvApply 8 1 1 0 1 1 1 0 0) := by decide
+
+/-- **`convolution_by_const_apply`** with the AVX `i64_extract_1blk_contiguous_avx`, `i64_convolution_by_const_{1,2}coeff_avx`,
+`i64_save_1blk_contiguous_avx`.  Contract: `8 ∣ n`, `a_size ≥ 1` (asserted), `tmp.len() ≥ 8·(min_size + a_size)`
+(`convolution_by_const_apply_tmp_bytes`); and `a_col < a.cols()`, `res_col < res.cols()` — asserted at entry since repair docs/fixes/24 (`cnvByConstChecked`). -/
+theorem cnv_by_const_in_bounds (n resSize resCols resCol aSize aCols aCol bSize cnvOffset tmpLen : Nat) (hn : n % 8 = 0)
+    (ha1 : 1 ≤ aSize) (hrc : resCol < resCols) (hac : aCol < aCols)
+    (htmp : 8 * (min resSize (aSize + bSize - 1) + aSize) ≤ tmpLen) :
+    InBounds (lens4 (n * resCols * resSize) (n * aCols * aSize) bSize tmpLen)
+      (cnvByConst n resSize resCols resCol aSize aCols aCol bSize cnvOffset) := by
+  unfold cnvByConst
+  simp only []
+  have hmr : min resSize (aSize + bSize - 1) ≤ resSize := Nat.min_le_left _ _
+  generalize hM : min resSize (aSize + bSize - 1) = minSize at *
+  have hn4 : n % 4 = 0 := by omega
+  refine inb_append (inb_flatMap (fun blk hblk => ?_)) (inb_map (fun j hj => ?_))
+  · have hb : blk < n / 8 := List.mem_range.mp hblk
+    refine inb_append (inb_append (i64extract_inb _ _ _ _ _ _ ?_ (by simp only [lens4]; omega))
+      (convConst_inb _ _ _ _ _ _ _ ha1 (by simp only [lens4]; omega) (by simp only [lens4]; omega) (by simp only [lens4]; omega)))
+      (i64save_inb _ _ _ _ _ _ ?_ (by simp only [lens4]; omega))
+    · right
+      simp only [lens4, stride4 hn4]
+      have k := at_fit (n := n) (j := aSize - 1) (C := aCols) (c := aCol) (S := aSize) (by omega) hac
+      have e : (aSize - 1) * (n * aCols) = n * ((aSize - 1) * aCols) := by
+        rw [Nat.mul_comm (aSize - 1) (n * aCols), Nat.mul_assoc, Nat.mul_comm aCols]
+      rw [Nat.mul_add] at k
+      omega
+    · by_cases h0 : minSize = 0
+      · exact Or.inl h0
+      · right
+        simp only [lens4, stride4 hn4]
+        have k := at_fit (n := n) (j := minSize - 1) (C := resCols) (c := resCol) (S := resSize) (by omega) hrc
+        have e : (minSize - 1) * (n * resCols) = n * ((minSize - 1) * resCols) := by
+          rw [Nat.mul_comm (minSize - 1) (n * resCols), Nat.mul_assoc, Nat.mul_comm resCols]
+        rw [Nat.mul_add] at k
+        omega
+  · have hj' := List.mem_range'_1.mp hj
+    simp only [wt, lens4]
+    exact at_fit (by omega) hrc
+example : InBounds (lens4 (8 * 2 * 2) (8 * 2 * 2) 3 (8 * (2 + 2))) (cnvByConst 8 2 2 1 2 2 0 3 1) := by decide
+
+/-- before repair docs/fixes/24 (`cnvByConst` = the entry point without its new column assertions): `res_col = res.cols()` with `min_size = res_size` (no `zero_at` assertion is reached): the AVX save stores 8 `i64`
+past the end of `res` — an out-of-bounds **write** -/
+theorem cnvByConstOld_res_col_out_of_bounds :
+    ¬ InBounds (lens4 (8 * 1 * 1) (8 * 1 * 1) 1 (8 * (1 + 1))) (cnvByConst 8 1 1 1 1 1 0 1 0) := by decide
+
+/-- the shipped entry points (with the column assertions of repair docs/fixes/24): no column hypothesis is needed: whenever the
+checked operations return a footprint, it is in bounds -/
+theorem cnv_checked_in_bounds (m n resSize resCols resCol aSize aCols aCol bSize bCols bCol cnvOffset tmpLen tmpLen2 : Nat)
+    (hm : m % 4 = 0) (hn : n % 8 = 0)
+    (htmp : 8 * min resSize (aSize + bSize - 1) ≤ tmpLen) (htmp2 : 8 * (min resSize (aSize + bSize - 1) + aSize) ≤ tmpLen2) :
+    (∀ foot, cnvApplyChecked m resSize resCols resCol aSize aCols aCol bSize bCols bCol cnvOffset = .ok foot →
+      InBounds (lens4 (2 * m * resCols * resSize) (2 * m * aCols * aSize) (2 * m * bCols * bSize) tmpLen) foot) ∧
+    (∀ foot, cnvByConstChecked n resSize resCols resCol aSize aCols aCol bSize cnvOffset = .ok foot →
+      InBounds (lens4 (n * resCols * resSize) (n * aCols * aSize) bSize tmpLen2) foot) := by
+  constructor
+  · intro foot h
+    unfold cnvApplyChecked at h
+    split at h; · cases h
+    split at h; · cases h
+    rename_i h1 h2
+    have h1' := Decidable.of_not_not h1
+    have h2' := Decidable.of_not_not h2
+    cases h
+    exact cnv_apply_in_bounds m resSize resCols resCol aSize aCols aCol bSize bCols bCol cnvOffset tmpLen hm h2'.1 h2'.2 h1'.1 h1'.2.1 h1'.2.2 htmp
+  · intro foot h
+    unfold cnvByConstChecked at h
+    split at h; · cases h
+    split at h; · cases h
+    rename_i h1 h2
+    have h1' := Decidable.of_not_not h1
+    have h2' := Decidable.of_not_not h2
+    cases h
+    exact cnv_by_const_in_bounds n resSize resCols resCol aSize aCols aCol bSize cnvOffset tmpLen2 hn h2' h1'.1 h1'.2 htmp2
+example : okVal (cnvByConstChecked 8 1 1 1 1 1 0 1 0) = none ∧ (okVal (cnvByConstChecked 8 2 2 1 2 2 0 3 1)).isSome = true := by decide
+
+/-- **`convolution_pairwise_apply_dft`** (`col_i ≠ col_j`): `tmp.len() = 8·(a_size + b_size + min_size)` is asserted at entry -/
+theorem cnv_pairwise_in_bounds (m resSize resCols resCol aSize aCols bSize bCols colI colJ cnvOffset : Nat) (hm : m % 4 = 0)
+    (ha1 : 1 ≤ aSize) (hrc : resCol < resCols) (hia : colI < aCols) (hja : colJ < aCols) (hib : colI < bCols) (hjb : colJ < bCols) :
+    InBounds (lens4 (2 * m * resCols * resSize) (2 * m * aCols * aSize) (2 * m * bCols * bSize)
+        (aSize * 8 + bSize * 8 + 8 * min resSize (aSize + bSize - 1)))
+      (cnvPairwise m resSize resCols resCol aSize bSize colI colJ cnvOffset) := by
+  unfold cnvPairwise
+  simp only []
+  have hmr : min resSize (aSize + bSize - 1) ≤ resSize := Nat.min_le_left _ _
+  generalize hM : min resSize (aSize + bSize - 1) = minSize at *
+  refine inb_append (inb_flatMap (fun blk hblk => ?_)) (inb_map (fun j hj => ?_))
+  · have hb : blk < m / 4 := List.mem_range.mp hblk
+    have fa := fun c (hc : c < aCols) => cnv_blk_fit (m := m) (col := c) (C := aCols) (S := aSize) (blk := blk) (x := aSize * 8) hm hc hb (Nat.le_refl _)
+    have fb := fun c (hc : c < bCols) => cnv_blk_fit (m := m) (col := c) (C := bCols) (S := bSize) (blk := blk) (x := bSize * 8) hm hc hb (Nat.le_refl _)
+    refine inb_append (inb_append ?_ (conv_inb _ _ _ _ _ _ _ ha1 (by simp only [lens4]; omega) (by simp only [lens4]; omega) (by simp only [lens4]; omega)))
+      (inb_flatMap (fun k hk => ?_))
+    · refine inb_cons ?_ (inb_cons ?_ (inb_cons ?_ (inb_cons ?_ (inb_cons ?_ (inb_cons ?_ (inb_nil _))))))
+      · simp only [rd, lens4]; exact fa colI hia
+      · simp only [rd, lens4]; exact fa colJ hja
+      · simp only [wt, lens4]; omega
+      · simp only [rd, lens4]; exact fb colI hib
+      · simp only [rd, lens4]; exact fb colJ hjb
+      · simp only [wt, lens4]; omega
+    · have hk' : k < minSize := List.mem_range.mp hk
+      refine save1blk_inb _ _ _ _ ?_ (by simp only [lens4]; omega)
+      simp only [lens4]
+      have := at_fit (n := 2 * m) (j := k) (C := resCols) (c := resCol) (S := resSize) (by omega) hrc
+      omega
+  · have hj' := List.mem_range'_1.mp hj
+    simp only [wt, lens4]
+    exact at_fit (by omega) hrc
+example : InBounds (lens4 (16 * 1 * 3) (16 * 2 * 2) (16 * 2 * 2) (16 + 16 + 8 * 3)) (cnvPairwise 8 3 1 0 2 2 0 1 1) := by decide
+
+/-- **element-wise limb loops** over `at(col, j)` slices (`vec_znx_dft_add_into`/`sub`/`copy`, `svp_apply_dft_to_dft`, …):
+in bounds when the loop bound is at most both sizes, the columns are in range (asserted by `at`) **and the ring degrees
+agree** — the AVX kernels walk `res_slice.len()` elements of every operand and check equal lengths only under
+`#[cfg(debug_assertions)]` -/
+theorem limb_loop_in_bounds (nR resCols resSize resCol aCols aSize aCol lo hi : Nat) (hrc : resCol < resCols) (hac : aCol < aCols)
+    (hhr : hi ≤ resSize) (hha : hi ≤ aSize) :
+    InBounds (lens4 (nR * resCols * resSize) (nR * aCols * aSize) 0 0) (limbLoop nR resCols resCol nR aCols aCol lo hi) := by
+  unfold limbLoop
+  refine inb_flatMap (fun j hj => ?_)
+  have hj' := List.mem_range'_1.mp hj
+  refine inb_cons ?_ (inb_cons ?_ (inb_nil _))
+  · simp only [wt, lens4]; exact at_fit (by omega) hrc
+  · simp only [rd, lens4]; exact at_fit (by omega) hac
+example : InBounds (lens4 (8 * 2 * 3) (8 * 1 * 2) 0 0) (limbLoop 8 2 1 8 1 0 0 2) := by decide
+
+/-- without equal ring degrees (an operand allocated for `n = 8` handed to an `n = 16` result; only a debug assertion
+objects) the kernel reads 16 elements from an 8-element limb, past the operand's buffer on its last limb.
+Not reachable in a build with debug assertions (the harness profile); reachable through the safe API without them. -/
+theorem limb_loop_ring_degree_counterexample :
+    ¬ InBounds (lens4 (16 * 1 * 1) (8 * 1 * 1) 0 0) (limbLoop 16 1 0 8 1 0 0 1) := by decide
 
 end C17
